@@ -515,7 +515,7 @@ def _ak2_name(vc):
                          'kopf._cogs.aiokits.aiotoggles.ToggleSet.__iter__', 'kopf._cogs.aiokits.aiotoggles.ToggleSet.__contains__',
                          'kopf._cogs.aiokits.aiotoggles.ToggleSet.is_on', 'kopf._cogs.aiokits.aiotoggles.ToggleSet.is_off',
                          'kopf._cogs.aiokits.aiotoggles.ToggleSet.drop_toggles', 'kopf._cogs.aiokits.aiotoggles.Toggle.name'],
-         props=['C13', 'C17', 'C19', 'C09'],
+         props=['C13', 'C17', 'C19', 'C09', 'C06'],
          clauses=['init.empty_with_own_condition', 'views.len_iter_contains_reflect_members', 'views.are_pure', 'is_on.any_all_modes',
                   'is_off.negates_is_on', 'drop_toggles.drops_exactly_the_given', 'drop_toggles.wakes_waiters_with_the_reduced_set',
                   'drop_toggles.under_lock', 'drop_toggles.members_untouched', 'toggle.name_as_given'],
